@@ -1,1 +1,85 @@
-fn main() {}
+//! `git` stand-in used as git-ai's `git_path`: records argv and/or injects a
+//! fault at the k-th *internal* call, otherwise execs the real git.
+//!
+//! Environment:
+//!   GAIV_SHIM_LOG      file; one JSON line per call {"n":k,"proxied":bool,"argv":[...],"cwd":"..."}
+//!   GAIV_SHIM_COUNTER  file holding the number of internal calls seen so far
+//!   GAIV_SHIM_FAULT    "<k>:<mode>" with mode in fail|garbage|kill ; applies to internal call number k (1-based)
+//!   GAIV_SHIM_FIRED    file created when the fault fired
+
+use std::ffi::OsString;
+use std::io::{Read, Seek, SeekFrom, Write};
+use std::os::unix::process::CommandExt;
+
+const REAL_GIT: &str = "/usr/bin/git";
+
+fn bump_counter(path: &str) -> u64 {
+    let mut f = match std::fs::OpenOptions::new().read(true).write(true).create(true).truncate(false).open(path) {
+        Ok(f) => f,
+        Err(_) => return 0,
+    };
+    unsafe {
+        libc::flock(std::os::unix::io::AsRawFd::as_raw_fd(&f), libc::LOCK_EX);
+    }
+    let mut s = String::new();
+    let _ = f.read_to_string(&mut s);
+    let n: u64 = s.trim().parse().unwrap_or(0) + 1;
+    let _ = f.seek(SeekFrom::Start(0));
+    let _ = f.set_len(0);
+    let _ = f.write_all(n.to_string().as_bytes());
+    n
+}
+
+fn main() {
+    let args: Vec<OsString> = std::env::args_os().skip(1).collect();
+    let proxied = std::env::var("GITAI_SKIP_MANAGED_HOOKS").as_deref() == Ok("1");
+    let mut n = 0u64;
+    if !proxied {
+        if let Ok(c) = std::env::var("GAIV_SHIM_COUNTER") {
+            n = bump_counter(&c);
+        }
+    }
+    if let Ok(log) = std::env::var("GAIV_SHIM_LOG") {
+        let argv: Vec<String> = args.iter().map(|a| a.to_string_lossy().into_owned()).collect();
+        let cwd = std::env::current_dir().map(|p| p.to_string_lossy().into_owned()).unwrap_or_default();
+        let line = format!(
+            "{}\n",
+            serde_json::json!({"n": n, "proxied": proxied, "argv": argv, "cwd": cwd})
+        );
+        if let Ok(mut f) = std::fs::OpenOptions::new().append(true).create(true).open(&log) {
+            unsafe {
+                libc::flock(std::os::unix::io::AsRawFd::as_raw_fd(&f), libc::LOCK_EX);
+            }
+            let _ = f.write_all(line.as_bytes());
+        }
+    }
+    if !proxied {
+        if let Ok(fault) = std::env::var("GAIV_SHIM_FAULT") {
+            if let Some((k, mode)) = fault.split_once(':') {
+                if k.parse::<u64>().ok() == Some(n) && n > 0 {
+                    if let Ok(p) = std::env::var("GAIV_SHIM_FIRED") {
+                        let _ = std::fs::write(p, format!("{n}:{mode}"));
+                    }
+                    match mode {
+                        "fail" => {
+                            eprintln!("fatal: injected failure at internal git call {n}");
+                            std::process::exit(97);
+                        }
+                        "garbage" => {
+                            std::process::exit(0);
+                        }
+                        "kill" => unsafe {
+                            libc::kill(libc::getppid(), libc::SIGKILL);
+                            std::process::exit(0);
+                        },
+                        _ => {}
+                    }
+                }
+            }
+        }
+    }
+    // drop our own control variables from what real git (and its hooks) see? keep: harmless
+    let err = std::process::Command::new(REAL_GIT).args(&args).exec();
+    eprintln!("gaiv-shim: exec failed: {err}");
+    std::process::exit(127);
+}
